@@ -641,13 +641,37 @@ def check_getline(chk, v):
             continue
         problems = []
         bounded = [x for x in calls if x["name"] in BOUNDED_SOURCES]
+        bounded_ok = set()
         for b in bounded:
+            # accepted: the bounded read sits in a loop and every path that performed it appends the buffer to the output
+            buf_root = sym.root_of(b["args"][0]) if b["args"] and b["args"][0] is not None else None
+            for lp in [x for x in flat(eff) if x["e"] in ("while", "loop")]:
+                body = lp["body"] + (lp.get("latch") or [])
+                cond_calls = [y for y in flat(body) if y is b]
+                in_cond = b["ret"] is not None and sym.contains(lp.get("cond") or ("int", 0), b["ret"])
+                if not cond_calls and not in_cond:
+                    continue
+                good = True
+                for leaves, conds, status in paths(body):
+                    if not in_cond and not any(y is b for y in leaves):
+                        continue
+                    app = any(y["e"] == "call" and re.search(r"::(append|operator\+=|push_back)$", y["name"]) and
+                              sym.root_of(y.get("this") or ("int", 0)) is not None and sym.root_of(y["this"])[1] == out and
+                              any(a is not None and buf_root is not None and sym.root_of(a) == buf_root for a in y["args"]) for y in leaves)
+                    if not app:
+                        good = False
+                if good:
+                    bounded_ok.add(id(b))
+            if id(b) in bounded_ok:
+                continue
             sz = b["args"][1] if b["name"].endswith("fgets") else None
-            problems.append("%s at line %s reads at most %s characters into a fixed buffer" % (b["name"], b["l"], sym.show(sz) if sz is not None else "n"))
+            problems.append("%s at line %s reads at most %s characters into a fixed buffer and is not in a loop that appends every buffer-full to %s" % (
+                b["name"], b["l"], sym.show(sz) if sz is not None else "n", out))
+        bounded = [b for b in bounded if id(b) not in bounded_ok]
         # character variables: locals assigned from a character source
         cvars = {("var", x["name"], x["id"]) for x in flat(eff) if x["e"] == "local" and isinstance(x.get("val"), tuple)
                  and x["val"][0] == "call" and x["val"][1] in CHAR_SOURCES}
-        if not cvars and not bounded:
+        if not cvars and not bounded and not bounded_ok:
             chk.broken("%s::getLine: no character source recognised (%s)" % (f.record, names[:5]))
         SKIP = {-1, 10, 13}
         discarded = []
@@ -681,6 +705,7 @@ def check_getline(chk, v):
             # a bounded read whose remainder is not discarded: cannot be decided here
             chk.broken("%s::getLine: bounded read %s without a discarding loop is not analysed" % (f.record, bounded[0]["name"]))
         chk.require(not problems, "R6", key, where=f.where,
-                    ok="character loop: every consumed character other than CR / LF / EOF is appended to %s" % out,
+                    ok="every consumed character other than CR / LF / EOF is appended to %s (%s)" % (
+                        out, "character loop" if cvars else "bounded reads in a loop, each buffer-full appended"),
                     bad="; ".join(problems)[:600] + " -- a line longer than the buffer (a 17-digit real with exponent is 33 characters) loses its tail silently",
                     variant=vn)
